@@ -79,7 +79,32 @@ def selftests(events, rng):
     return out
 
 
+CKY_CFG = """CONSTANTS MAXRULES = %d
+ MAXLEN = 3
+ WEIGHTS = {%s}
+ SRNAME = "Sat3"
+INIT Init
+NEXT Next
+INVARIANT ColumnsAreInside
+INVARIANT NextTokenIsExtension
+CHECK_DEADLOCK FALSE
+"""
+
+
+def model_check(report, tier):
+    """(A) CKY.tla: incremental columns = inside weights; the outside pass = weight of the one-token extension."""
+    from common import run_tlc, MachineryError, semantic_core
+    for maxrules, ws in ([(2, "1, 2")] if tier == "quick" else [(2, "1, 2"), (3, "1")]):
+        res = run_tlc("CKY", CKY_CFG % (maxrules, ws), timeout=3000)
+        if not res.ok or res.left != 0:
+            raise MachineryError("CKY.tla: design-level check failed (the model, not the code):\n" + res.errhead)
+        report.add_tlc(res, f"CKY.tla: CNF grammars with <= {maxrules} rules, weights {{{ws}}}, all token sequences <= 3: "
+                            "ColumnsAreInside, NextTokenIsExtension")
+    semantic_core(report, ["PrefixRecurrence", "PrefixEmpty"], maxrules=2)
+
+
 def run(report, tier, seed):
+    model_check(report, tier)
     standard_run(report, "C04", MODULE, tier, seed, selftests,
                  rule=("exact-rational grammars with finitely many derivations (normalised or not, nullable parts, the empty "
                        "string), all contexts up to L (viable or not, and one containing eos), the three LM back-ends on warm "
